@@ -16,7 +16,6 @@ import math
 
 import numpy as np
 
-KEY_CONST_EDGE = "c18:constant-spectrum-edge-bin-rounding"
 
 ATTR = {"Fed": "energy_density", "Fpe": "pulse_energy", "Fpl": "pulse_length", "Fsx": "stddev_x", "Fsy": "stddev_y",
         "Fmz": "mean_z", "Fwz": "waist_z", "Fsw": "stddev_waist", "Fwl": "laser_wavelength",
@@ -387,39 +386,33 @@ def search_spectrum(Lmod, case, obs, obj, rng, stats):
     power = [p * float(obj.delta_wavelength) for p in psd]
     if kind == "SConst":
         want = 1.0 / bins
-        bad = [i for i in range(bins) if abs(power[i] - want) > 1e-12]
+        # bin edges are accumulated in doubles: a clipped outer bin sees ulp(wavelength) / (max - min)
+        tol = 1e-12 + 16 * 2.2e-16 * hi / (hi - lo)
+        edges = obs["edges"]
+        if edges[0] < lo or edges[-1] > hi:
+            stats["const_edge_cases"] += 1       # the case in which the code before 879f8f0 halved a bin
+        bad = [i for i in range(bins) if abs(power[i] - want) > tol]
         if bad:
-            edges = obs["edges"]
-            lo_out, hi_out = edges[0] < lo, edges[-1] > hi
-            expl = [want] * bins
-            if lo_out:
-                expl[0] -= 0.5 * want
-            if hi_out:
-                expl[-1] -= 0.5 * want
-            if (lo_out or hi_out) and all(abs(power[i] - expl[i]) <= 1e-12 for i in range(bins)):
-                stats["const_edge_cases"] += 1
-                fails.append({"key": KEY_CONST_EDGE,
-                              "claim": "ConstantSpectrum bin power != integral of the spectral density over the bin (edge bin halved); sum of powers != 1",
-                              "min_wavelength": lo.hex(), "max_wavelength": hi.hex(), "bins": bins,
-                              "constructor": "ConstantSpectrum(%r, %r, %d)" % (lo, hi, bins),
-                              "first_edge_computed": edges[0].hex(), "last_edge_computed": edges[-1].hex(),
-                              "first_edge_below_min": lo_out, "last_edge_above_max": hi_out,
-                              "power": power if bins <= 12 else power[:3] + power[-3:], "sum_of_power": math.fsum(power), "expected_per_bin": want})
-            else:
-                fails.append({"key": "c18:constant-bin-power", "claim": "ConstantSpectrum bin power != 1/bins (the integral of 1/(max-min) over the bin)",
-                              "case": case, "bins": bins, "bad_bins": bad[:5], "power": power[:8], "expected_per_bin": want})
-        else:
-            stats["spectrum_sum_to_one"] += 1
-            if abs(math.fsum(power) - 1.0) > 1e-12:
-                fails.append({"key": "c18:constant-sum", "claim": "ConstantSpectrum powers do not sum to one", "case": case, "sum": math.fsum(power)})
+            fails.append({"key": "c18:constant-bin-power", "claim": "ConstantSpectrum bin power != 1/bins (the integral of 1/(max-min) over the bin)",
+                          "constructor": "ConstantSpectrum(%r, %r, %d)" % (lo, hi, bins), "case": case, "bins": bins, "bad_bins": bad[:5],
+                          "power": power if bins <= 12 else power[:3] + power[-3:], "sum_of_power": math.fsum(power), "expected_per_bin": want,
+                          "first_edge_computed": edges[0].hex(), "last_edge_computed": edges[-1].hex(),
+                          "first_edge_below_min": edges[0] < lo, "last_edge_above_max": edges[-1] > hi})
+        stats["spectrum_sum_to_one"] += 1
+        if abs(math.fsum(power) - 1.0) > 2 * tol:
+            fails.append({"key": "c18:constant-sum", "claim": "ConstantSpectrum powers do not sum to one",
+                          "constructor": "ConstantSpectrum(%r, %r, %d)" % (lo, hi, bins), "case": case, "sum": math.fsum(power)})
     else:
         h = 0.5 * std
+        # spectrum(x) evaluates (x - mean) / stddev in doubles: the rounding of x - mean (one ulp of the wavelength)
+        # is amplified by 1 / stddev; measured 1.0e-11 for stddev = 0.002 at 700 nm
+        tol = 1e-11 + 8 * 2.2e-16 * hi / std
         for i in range(bins):
             a_, b_ = lo + i * delta, lo + (i + 1) * delta
             if (b_ - a_) / h > 400:
                 continue
             got = integrate(obj, a_, b_, h)
-            if abs(power[i] - got) > 1e-11:
+            if abs(power[i] - got) > tol:
                 fails.append({"key": "c18:gaussian-bin-power", "claim": "GaussianSpectrum bin power != integral of spectrum(x) over the bin",
                               "case": case, "bin": i, "power": power[i], "integral_of_evaluate": got, "mean": mean, "stddev": std})
                 break
@@ -434,7 +427,7 @@ def search_spectrum(Lmod, case, obs, obj, rng, stats):
                 fails.append({"key": "c18:gaussian-sum", "claim": "GaussianSpectrum powers do not sum to one although the range spans mean +- %.1f stddev" % k,
                               "constructor": "GaussianSpectrum(%r, %r, %d, %r, %r)" % (mean - k * std, mean + k * std, bn, mean, std), "sum": tot})
             unit = integrate(obj, mean - k * std, mean + k * std, h)
-            if abs(unit - 1.0) > 1e-11:
+            if abs(unit - 1.0) > tol:
                 fails.append({"key": "c18:gaussian-density-unit", "claim": "GaussianSpectrum(x) does not integrate to one", "case": case, "integral": unit,
                               "mean": mean, "stddev": std})
     return fails
